@@ -3,13 +3,15 @@
 from __future__ import annotations
 
 import itertools
+import os
 import re
+import time
 
 from ..core import Check, classify_exc
-from ..g import g_Z, g_list, g_str
+from ..g import g_Z, g_list, g_opt, g_str
 from . import c12
 
-IMPORTS = "PyPrims Cond CondPrint CondParen StrLit TagTree PathSyntax"
+IMPORTS = "PyPrims Cond CondPrint CondParen StrLit TagTree PathSyntax ExprSyntax"
 
 _ENV = None
 
@@ -92,7 +94,7 @@ def report(ck, src, r, layer, counter):
         sig = "nil-literal-serialises-to-nothing"
     else:
         sig = f"{kind}:{src[:100]}"
-    if counter[0] < 8 or sig == "nil-literal-serialises-to-nothing":
+    if counter[0] < 12 or sig == "nil-literal-serialises-to-nothing":
         counter[0] += 1
         ck.violation("impl-violation", sig, f"{src!r}: str() gives {s!r}; {kind}: {detail!r}",
                      {"type": "roundtrip", "template": src, "str": s, "kind": kind, "detail": detail})
@@ -599,6 +601,456 @@ def gen_rich(ck):
     for _ in range(1500 if ck.quick else 15000):
         yield nodes(2 if ck.quick else 3, False)
 
+# ------------------------------------------------------------------ layer F: expressions inside tags and output statements
+# A SOURCE expression is a list of tokens (what the expression lexer yields for the generated text); the model parses it and
+# prints it (ExprSyntax.run_xprint); the implementation's str() of the same source is tokenised by [expr_tokens] below.
+KEYWORDS = {"true", "false", "nil", "null", "empty", "blank", "and", "or", "contains", "not", "in", "offset", "limit", "reversed", "cols",
+            "continue", "with", "for", "as", "if", "else", "required"}
+KW_TOK = {"true": "ETrue", "false": "EFalse", "nil": "ENil", "null": "ENil", "empty": "EEmpty", "blank": "EBlank", "and": "EOtherKw", "or": "EOr",
+          "contains": "EOtherKw", "not": "EOtherKw", "in": "EIn", "offset": "EOffset", "limit": "ELimit", "reversed": "EReversed", "cols": "ECols",
+          "continue": "EContinue", "with": "EWith", "for": "EFor", "as": "EAs", "if": "EIf", "else": "EElse", "required": "EOtherKw"}
+PUNCT = {"dot": ("EDot", "."), "lb": ("ELBr", "["), "rb": ("ERBr", "]"), "rangel": ("ERangeL", "("), "range": ("ERange", ".."), "rp": ("ERParen", ")"),
+         "lp": ("ELParen", "("), "colon": ("EColon", ":"), "comma": ("EComma", ","), "pipe": ("EPipe", "|"), "dpipe": ("EDPipe", "||"), "assign": ("EAssign", "=")}
+BARE_WORD = re.compile(r"(?:[^\W\d]|\d+[A-Za-z_])[\w-]*\??")      # texts the lexer reads as ONE word (keywords apart)
+PLAIN_NAME = re.compile(r"[^\W\d][\w-]*")                           # what path.is_property accepts (keywords apart)
+
+
+def float_canon(text):
+    """The float literal as str() must write it: the shortest representation of the value, without an exponent."""
+    import decimal
+
+    s = repr(float(text))
+    if "e" in s or "E" in s:
+        s = format(decimal.Decimal(s), "f")
+        if "." not in s:
+            s += ".0"
+    return s
+
+
+def g_etok(t):
+    k = t[0]
+    if k == "word":
+        return f"EWord {g_str(t[1])}"
+    if k == "kw":
+        return KW_TOK[t[1]]
+    if k == "istr":
+        return f"EIdentStr {g_str(t[1])}"
+    if k == "iidx":
+        return f"EIdentIdx {g_Z(t[1])}"
+    if k == "int":
+        return f"EInt {g_Z(t[1])}"
+    if k == "float":
+        return f"EFloat {g_str(float_canon(t[1]))}"
+    if k == "str":
+        return f"EStr {g_str(t[1])}"
+    if k == "cond":
+        return f"ECond ({c12.g_tok(t[1])})"
+    return PUNCT[k][0]
+
+
+def q_str(s):
+    return '"' + s + '"' if "'" in s else "'" + s + "'"
+
+
+def etok_text(t):
+    k = t[0]
+    if k in ("word", "kw", "float"):
+        return t[1]
+    if k == "istr":
+        return "[" + q_str(t[1]) + "]"
+    if k == "iidx":
+        return f"[{t[1]}]"
+    if k == "int":
+        return str(t[1])
+    if k == "str":
+        return q_str(t[1])
+    if k == "cond":
+        return c12.tok_src(t[1])
+    return PUNCT[k][1]
+
+
+def etoks_text(toks, rng):
+    """Source text of a token list: path-internal tokens are glued, elsewhere one space (sometimes none around punctuation)."""
+    out = []
+    for i, t in enumerate(toks):
+        k = t[0]
+        prev = toks[i - 1][0] if i else None
+        glue = (k in ("dot", "iidx", "istr", "lb") and prev in ("word", "istr", "iidx", "rb")) or prev in ("dot", "lb", "rangel") or k in ("rb",) \
+            or (k in ("range", "rp") or prev == "range") or (k in ("colon", "comma") and rng.random() < 0.7) or (prev == "colon" and rng.random() < 0.4)
+        if i and not glue:
+            out.append(" ")
+        out.append(etok_text(t))
+    return "".join(out)
+
+
+EXPR_TOK = re.compile(
+    r"\[\s*(?P<iidx>-?\d+)\s*\]|\[\s*(?P<iq>[\"'])(?P<istr>.*?)(?P=iq)\s*\]|(?P<sq>[\"'])(?P<str>.*?)(?P=sq)|(?P<rangel>\((?=[^(]+?\.\.))|(?P<range>\.\.)"
+    r"|(?P<float>-?\d+\.(?!\.)\d*)|(?P<int>-?\d+\b)|(?P<dot>\.)|(?P<word>\w[\w\-]*\??)|(?P<lp>\()|(?P<rp>\))|(?P<lb>\[)|(?P<rb>\])|(?P<colon>:)|(?P<comma>,)"
+    r"|(?P<dpipe>\|\|)|(?P<pipe>\|)|(?P<op>==|!=|<>|<=|>=|<|>)|(?P<assign>=)|(?P<ws>[ \n\t\r]+)", re.S)
+
+
+def expr_tokens(text, vars_by_name):
+    """Tokens (Gallina) of a SERIALISED expression; the condition of a ternary (from `if` to `else`, `||` or the end) goes through
+    the condition tokeniser of layer A.  None if the text is outside the vocabulary."""
+    toks, pos = [], 0
+    while pos < len(text):
+        m = EXPR_TOK.match(text, pos)
+        if not m:
+            return None
+        pos = m.end()
+        k = m.lastgroup
+        if k == "ws":
+            continue
+        if k == "iq":
+            k = "istr"
+        if k == "sq":
+            k = "str"
+        toks.append((k, m.group(k), m.start(), m.end()))
+    out, i = [], 0
+    while i < len(toks):
+        k, v, _a, b = toks[i]
+        if k == "word" and v == "if":
+            j = i + 1
+            while j < len(toks) and not (toks[j][0] == "dpipe" or (toks[j][0] == "word" and toks[j][1] == "else")):
+                j += 1
+            ctoks = cond_tokens(text[b:toks[j][2] if j < len(toks) else len(text)], vars_by_name)
+            if ctoks is None:
+                return None
+            out.append("EIf")
+            out += [f"ECond ({c12.g_tok(t)})" for t in ctoks]
+            i = j
+            continue
+        if k == "word":
+            out.append(KW_TOK[v] if v in KEYWORDS else f"EWord {g_str(v)}")
+        elif k in ("istr", "str"):
+            out.append(("EIdentStr " if k == "istr" else "EStr ") + g_str(v))
+        elif k in ("iidx", "int"):
+            out.append(("EIdentIdx " if k == "iidx" else "EInt ") + g_Z(int(v)))
+        elif k == "float":
+            out.append(f"EFloat {g_str(v)}")
+        elif k == "op":
+            return None                      # a comparison operator outside a ternary's condition
+        else:
+            out.append(PUNCT[k][0])
+        i += 1
+    return out
+
+
+# ---- generated trees (normal form = what the parser builds) and their Gallina
+def g_prim(p):
+    k = p[0]
+    if k == "int":
+        return f"PInt {g_Z(p[1])}"
+    if k == "float":
+        return f"PFloat {g_str(float_canon(p[1]))}"
+    if k == "str":
+        return f"PStr {g_str(p[1])}"
+    if k == "path":
+        return f"PPath {g_path(p[1])}"
+    if k == "range":
+        return f"PRange ({g_prim(p[1])}) ({g_prim(p[2])})"
+    return {"true": "PTrue", "false": "PFalse", "nil": "PNil", "empty": "PEmpty", "blank": "PBlank"}[k]
+
+
+def g_filter(f):
+    args = g_list(f"APos ({g_prim(a[1])})" if a[0] == "pos" else f"AKw {g_str(a[1])} ({g_prim(a[2])})" for a in f[1])
+    return "{| f_name := " + g_str(f[0]) + "; f_args := " + args + " |}"
+
+
+def g_fexpr(left, fs):
+    return "{| fe_left := " + g_prim(left) + "; fe_filters := " + g_list(g_filter(f) for f in fs) + " |}"
+
+
+def g_cond(toks):
+    """The condition tree as the model's own parser builds it from the tokens (the tree is not generated separately)."""
+    return "match Cond.parse flags_on " + g_list(c12.g_tok(t) for t in toks) + " with Ok e => e | _ => BLit VNil end"
+
+
+def g_expr(e):
+    if e[0] == "filt":
+        return f"XFilt {g_fexpr(e[1], e[2])}"
+    _, left, fs, cond, alt, tail = e
+    galt = "None" if alt is None else f"(Some ({g_prim(alt[0])}, {g_list(g_filter(f) for f in alt[1])}))"
+    return f"XTern {g_fexpr(left, fs)} ({g_cond(cond)}) {galt} {g_list(g_filter(f) for f in tail)}"
+
+
+def g_kwargs(l):
+    return g_list(f"({g_str(k)}, {g_prim(v)})" for k, v in l)
+
+
+def g_payload(y):
+    k = y[0]
+    if k == "expr":
+        return f"YExpr ({g_expr(y[1])})"
+    if k == "assign":
+        return f"YAssign {g_str(y[1])} ({g_expr(y[2])})"
+    if k == "loop":
+        _, ident, it, lim, off, cols, rev = y
+        return ("YLoop {| lp_id := " + g_str(ident) + "; lp_iter := " + g_prim(it) + "; lp_limit := " + g_opt(lim, lambda p: "(" + g_prim(p) + ")")
+                + "; lp_offset := " + g_opt(off, lambda p: "(" + g_prim(p) + ")") + "; lp_cols := " + g_opt(cols, lambda p: "(" + g_prim(p) + ")")
+                + "; lp_rev := " + ("true" if rev else "false") + " |}")
+    if k == "case":
+        return f"YCase ({g_prim(y[1])})"
+    if k == "when":
+        return f"YWhen {g_list(g_prim(p) for p in y[1])}"
+    if k == "cycle":
+        return f"YCycle {g_opt(y[1], lambda p: '(' + g_prim(p) + ')')} {g_list(g_prim(p) for p in y[2])}"
+    if k == "include":
+        _, name, bind, args = y
+        gb = "None" if bind is None else f"(Some ({g_path(bind[1])}, {g_opt(bind[2], g_str)}))"
+        return "YInclude {| in_name := " + g_prim(name) + "; in_bind := " + gb + "; in_args := " + g_kwargs(args) + " |}"
+    if k == "render":
+        _, name, bind, args = y
+        gn = f"RStr {g_str(name[1])}" if name[0] == "str" else f"RIdent {g_str(name[1])}"
+        gb = "None" if bind is None else f"(Some ({'true' if bind[0] else 'false'}, {g_path(bind[1])}, {g_opt(bind[2], g_str)}))"
+        return "YRender {| rd_name := " + gn + "; rd_bind := " + gb + "; rd_args := " + g_kwargs(args) + " |}"
+    return f"YIdent {g_str(y[1])}"
+
+
+KIND = {"expr": "KExpr", "assign": "KAssign", "loop": "KLoop", "case": "KCase", "when": "KWhen", "cycle": "KCycle", "include": "KInclude",
+        "render": "KRender", "ident": "KIdent", "capture": "KCapture"}
+SEG_NAMES = ["a", "k", "d", "x", "l", "y", "a b", "it's", "X", "", "1x", "a-b", "é", "size", "first", "if", "empty", "limit", "a?", "contains", "for"]
+WORDS = ["x", "y", "l", "d", "a", "n", "g", "k", "v1", "a-b", "é", "1x", "b?"]
+STRS = ["a", "it's", 'say "hi"', "a\\b", "", " ", "a b", "1", "continue", ", ", "if x else y", "| f"]
+FLOATS = ["1.5", "-0.5", "1.0", "0.00001", "100000000000000000000.0", "2.", "12.125"]
+FILTER_NAMES = ["upcase", "size", "append", "default", "slice", "join", "replace", "first", "plus", "where", "f", "a-b", "1x", "f?"]
+KW_NAMES = ["allow_false", "k", "j", "x", "y", "a-b", "1x"]
+
+
+def gen_expr_cases(ck):
+    """(kind, tree or None, source tokens, wrapper).  The tree is None where the source was mutated (it may not parse)."""
+    rng = ck.rng
+    cond_atoms = [("var", c12.Opd("a", True)), ("var", c12.Opd("b", False)), ("var", c12.Opd("c", None))] + \
+                 [("lit", o) for o in c12.OPERANDS if o.literal is not None and o.name not in ("n",)]
+
+    def seg(d):
+        r = rng.random()
+        if r < 0.6 or d == 0:
+            return ("name", rng.choice(SEG_NAMES))
+        if r < 0.8:
+            return ("idx", rng.choice([0, 1, -1, 10]))
+        return ("nested", path(d - 1))
+
+    def path(d):
+        segs = [seg(d) for _ in range(rng.randrange(1, 4))]
+        if segs[0][0] == "idx":
+            segs[0] = ("name", rng.choice(SEG_NAMES))
+        return segs
+
+    def path_toks(p, first=True):
+        out = []
+        for i, (k, v) in enumerate(p):
+            if k == "name":
+                if BARE_WORD.fullmatch(v) and v not in KEYWORDS and rng.random() < 0.75:
+                    out += ([] if first and i == 0 else [("dot",)]) + [("word", v)]
+                else:
+                    out.append(("istr", v))
+            elif k == "idx":
+                out.append(("iidx", v))
+            else:
+                out += [("lb",)] + path_toks(v) + [("rb",)]
+        return out
+
+    def prim(d=2, nil=False):
+        r = rng.random()
+        if r < 0.45:
+            return ("path", path(d))
+        if r < 0.6:
+            return ("str", rng.choice(STRS))
+        if r < 0.7:
+            return ("int", rng.choice([0, 1, -3, 42, 10**20]))
+        if r < 0.78:
+            return ("float", rng.choice(FLOATS))
+        if r < 0.9:
+            return (rng.choice(["true", "false", "empty", "blank", "nil" if nil and rng.random() < 0.3 else "true"]),)
+        if d == 0:
+            return ("int", 3)
+        a, b = prim(0), prim(d - 1)
+        a, b = (("float", "1.5") if x[0] == "float" else x for x in (a, b))
+        return ("range", a if a[0] in ("int", "path", "float") else ("int", 1), b)
+
+    def prim_toks(p):
+        k = p[0]
+        if k == "path":
+            return path_toks(p[1])
+        if k == "range":
+            return [("rangel",)] + prim_toks(p[1]) + [("range",)] + prim_toks(p[2]) + [("rp",)]
+        if k in ("int", "float", "str"):
+            return [p]
+        return [("kw", rng.choice(["nil", "null"]) if k == "nil" else k)]
+
+    def filt():
+        args = []
+        for _ in range(rng.choice([0, 0, 1, 1, 2, 3])):
+            if rng.random() < 0.3:
+                args.append(("kw", rng.choice(KW_NAMES), prim(1)))
+            else:
+                p = prim(1)
+                args.append(("pos", ("int", 7) if p[0] in ("empty", "blank") else p))
+        return (rng.choice(FILTER_NAMES), args)
+
+    def filt_toks(f):
+        out = [("word", f[0])]
+        if f[1] or rng.random() < 0.1:
+            out.append(("colon",))
+            if rng.random() < 0.1:
+                out.append(("comma",))
+            for i, a in enumerate(f[1]):
+                if i:
+                    out.append(("comma",))
+                out += prim_toks(a[1]) if a[0] == "pos" else [("word", a[1]), ("colon",)] + prim_toks(a[2])
+            if f[1] and rng.random() < 0.1:
+                out.append(("comma",))
+        return out
+
+    def filters(n):
+        return [filt() for _ in range(rng.randrange(0, n))]
+
+    def pipes_toks(fs, seps=("pipe",)):
+        out = []
+        for f in fs:
+            out += [(rng.choice(seps),)] + filt_toks(f)
+        return out
+
+    def cond(d):
+        r = rng.random()
+        if d == 0 or r < 0.3:
+            return [rng.choice(cond_atoms)]
+        if r < 0.45:
+            return ["not"] + cond(d - 1)
+        if r < 0.55:
+            return ["("] + cond(d - 1) + [")"]
+        if r < 0.75:
+            return [rng.choice(cond_atoms), ("op", rng.choice(c12.OPS)), rng.choice(cond_atoms)]
+        return cond(d - 1) + [rng.choice(["and", "or"])] + cond(d - 1)
+
+    def expr():
+        left, fs = prim(), filters(3)
+        if rng.random() < 0.6:
+            return ("filt", left, fs)
+        alt = (prim(), filters(3)) if rng.random() < 0.6 else None
+        return ("tern", left, fs, cond(2), alt, filters(3) if rng.random() < 0.4 else [])
+
+    def expr_toks(e):
+        out = prim_toks(e[1]) + pipes_toks(e[2])
+        if e[0] == "tern":
+            _, _l, _f, c, alt, tail = e
+            out += [("kw", "if")] + [("cond", t) for t in c]
+            if alt is not None:
+                out += [("kw", "else")] + prim_toks(alt[0]) + pipes_toks(alt[1])
+            if tail:
+                out += [("dpipe",)] + filt_toks(tail[0]) + pipes_toks(tail[1:], ("pipe", "pipe", "dpipe"))
+        return out
+
+    def ident_toks(s):
+        return [("word", s)] if BARE_WORD.fullmatch(s) and s not in KEYWORDS and rng.random() < 0.8 else [("istr", s)]
+
+    def kwargs():
+        return [(rng.choice(KW_NAMES), prim(1)) for _ in range(rng.choice([0, 0, 1, 2]))]
+
+    def kwargs_toks(l, lead):
+        out = []
+        for i, (k, v) in enumerate(l):
+            if i or lead:
+                out.append(("comma",))
+            out += [("word", k), ("colon",)] + prim_toks(v)
+        return out
+
+    def bind_toks(bind, kw):
+        if bind is None:
+            return []
+        return [("kw", kw)] + path_toks(bind[1]) + ([("kw", "as"), ("word", bind[2])] if bind[2] is not None else [])
+
+    def one():
+        r = rng.random()
+        if r < 0.4:
+            e = expr()
+            return "expr", ("expr", e), expr_toks(e), rng.choice(["out", "echo"])
+        if r < 0.48:
+            n, e = rng.choice(["z", "a-b", "1x", "a b", "if", "", "é"]), expr()
+            return "assign", ("assign", n, e), ident_toks(n) + [("assign",)] + expr_toks(e), "assign"
+        if r < 0.63:
+            ident, it = rng.choice(["i", "i", "x", "a b", "1x", "a?", "if", "é"]), prim(1)
+            if it[0] in ("empty", "blank"):
+                it = ("path", [("name", "l")])
+            lim = prim(0) if rng.random() < 0.4 else None
+            off = (("str", "continue") if rng.random() < 0.4 else prim(0)) if rng.random() < 0.4 else None
+            cols = prim(0) if rng.random() < 0.3 else None
+            rev = rng.random() < 0.3
+            parts = []
+            if lim is not None:
+                parts.append([("kw", "limit"), ("colon",)] + prim_toks(lim))
+            if off is not None:
+                parts.append([("kw", "offset"), ("colon",)] + ([("kw", "continue")] if off == ("str", "continue") and rng.random() < 0.7 else prim_toks(off)))
+            if cols is not None:
+                parts.append([("kw", "cols"), ("colon",)] + prim_toks(cols))
+            if rev:
+                parts.append([("kw", "reversed")])
+            rng.shuffle(parts)
+            toks = ident_toks(ident) + [("kw", "in")] + prim_toks(it)
+            for part in parts:
+                toks += ([("comma",)] if rng.random() < 0.2 else []) + part
+            return "loop", ("loop", ident, it, lim, off, cols, rev), toks, rng.choice(["for", "tablerow"])
+        if r < 0.68:
+            p = prim()
+            return "case", ("case", p), prim_toks(p), "case"
+        if r < 0.76:
+            l = [prim(1, nil=True) for _ in range(rng.randrange(1, 4))]
+            toks = prim_toks(l[0])
+            for p in l[1:]:
+                toks += [rng.choice([("comma",), ("kw", "or")])] + prim_toks(p)
+            return "when", ("when", l), toks, "when"
+        if r < 0.84:
+            g = None
+            if rng.random() < 0.5:
+                g = rng.choice([("str", "g"), ("str", "a b"), ("path", [("name", "g")]), ("path", [("name", "1x")]), ("int", 1), ("float", "1.5"), ("true",), ("empty",)])
+            args = [prim(1) for _ in range(rng.randrange(1, 4))]
+            toks = (prim_toks(g) + [("colon",)] if g is not None else [])
+            for i, a in enumerate(args):
+                toks += ([("comma",)] if i and (rng.random() < 0.8 or a[0] not in ("int", "float", "str", "true", "false")) else []) + prim_toks(a)
+            return "cycle", ("cycle", g, args), toks, "cycle"
+        if r < 0.92:
+            name = rng.choice([("str", "p"), ("str", "q"), ("path", [("name", "y")]), ("path", [("name", "d"), ("name", "k")])])
+            bind = (rng.random() < 0.5, path(1), rng.choice([None, "x", "y", "1x", "a?"])) if rng.random() < 0.6 else None
+            args = kwargs()
+            toks = prim_toks(name) + bind_toks(bind, "for" if bind and bind[0] else "with") + kwargs_toks(args, rng.random() < 0.5)
+            return "include", ("include", name, bind, args), toks, "include"
+        if r < 0.97:
+            name = rng.choice([("str", "p"), ("str", "q"), ("ident", "p"), ("ident", "a b"), ("ident", "1x")])
+            bind = (rng.random() < 0.5, path(1), rng.choice([None, "x", "y", "1x"])) if rng.random() < 0.6 else None
+            args = kwargs()
+            toks = ([name] if name[0] == "str" else ident_toks(name[1])) + bind_toks(bind, "for" if bind and bind[0] else "with") + kwargs_toks(args, rng.random() < 0.5)
+            return "render", ("render", name, bind, args), toks, "render"
+        n = rng.choice(["n", "a b", "1x", "if", "a-b", "a?", "é"])
+        w = rng.choice(["increment", "decrement", "capture"])
+        return ("capture" if w == "capture" else "ident"), ("ident", n), ident_toks(n), w
+
+    for _ in range(800 if ck.quick else 8000):
+        kind, tree, toks, wrap = one()
+        if rng.random() < 0.12 and len(toks) > 1:           # a damaged source: the parsers must agree on accepting it or not
+            # (not the `if` of a ternary nor its condition: condition tokens are in the condition model's vocabulary and must stay behind an `if`)
+            i = rng.choice([j for j, t in enumerate(toks) if t[0] != "cond" and t != ("kw", "if")])
+            toks = toks[:i] + rng.choice([[], [("comma",)], [toks[i], ("comma",)], [("colon",)], [toks[i], toks[i]]]) + toks[i + 1:]
+            tree = None
+        yield kind, tree, toks, wrap
+
+
+def has_nil(tree):
+    return isinstance(tree, (tuple, list)) and (tree == ("nil",) or any(has_nil(x) for x in tree))
+
+
+# wrapper -> (source format, pattern of the serialised form with the expression as group 1)
+WRAPS = {
+    "out": ("{{ %s }}", r"\{\{ (.*) \}\}"), "echo": ("{%% echo %s %%}", r"\{% echo (.*) %\}"), "assign": ("{%% assign %s %%}", r"\{% assign (.*) %\}"),
+    "for": ("{%% for %s %%}{{ i }}{%% endfor %%}", r"\{% for (.*) %\}\{\{ i \}\}\{% endfor %\}"),
+    "tablerow": ("{%% tablerow %s %%}{{ i }}{%% endtablerow %%}", r"\{% tablerow (.*) %\}\{\{ i \}\}\{% endtablerow %\}"),
+    "case": ("{%% case %s %%}{%% when 1 %%}a{%% endcase %%}", r"\{% case (.*) %\}\n\{% when 1 %\}a\{% endcase %\}"),
+    "when": ("{%% case x %%}{%% when %s %%}a{%% endcase %%}", r"\{% case x %\}\n\{% when (.*) %\}a\{% endcase %\}"),
+    "cycle": ("{%% cycle %s %%}", r"\{% cycle (.*) %\}"), "include": ("{%% include %s %%}", r"\{% include (.*) %\}"),
+    "render": ("{%% render %s %%}", r"\{% render (.*) %\}"), "increment": ("{%% increment %s %%}", r"\{% increment (.*) %\}"),
+    "decrement": ("{%% decrement %s %%}", r"\{% decrement (.*) %\}"), "capture": ("{%% capture %s %%}x{%% endcapture %%}", r"\{% capture (.*) %\}x\{% endcapture %\}"),
+}
+
 
 # corpus: the concrete inputs on which str() used to lose or change meaning (kept so that a regression is reported with them first)
 CORPUS = [
@@ -608,6 +1060,11 @@ CORPUS = [
     "{% cycle 'g': 1, 2 %}{% cycle g: 1, 2 %}{% cycle 'h': 1, 2 %}",
     "{% tablerow i in l cols:2 %}{{ i }}{% endtablerow %}", "{% for i in l %}{% ifchanged %}{{ i }}{% endifchanged %}{% endfor %}",
     "{% raw %}{{ x }}{% endraw %}", "{{ x if not a and b else 'z' }}", "{{ x if (a or b) and c }}",
+    # (one per repaired defect of the expression serialisers first, then variants)
+    "{{ d['if'] }}", "{% increment ['a b'] %}", "{% include 'p' with a? %}", "{{ x | append: a? }}", "{{ 0.00001 }}",
+    "{{ d['empty'].limit }}", "{% assign ['a b'] = 1 %}{{ a }}", "{% for ['a b'] in l %}{{ i }}{% endfor %}", "{% capture ['if'] %}x{% endcapture %}",
+    "{% render ['a b'] %}", "{% render 'p' for 1x as y %}", "{{ x | default: 1x, allow_false: true }}", "{{ x | plus: 100000000000000000000.0 }}",
+    "{% for i in l offset:continue %}{{ i }}{% endfor %}",
 ]
 
 
@@ -617,20 +1074,30 @@ def run(ck: Check) -> None:
         "(depth<=3/4, comparisons with parenthesised operands, empty/blank) inside {% if %}; B: every string value of length <=3/4 over "
         "{a space ' \" \\ newline { % } n e-acute} (not both quotes) as a literal in an output statement; C: every block and inline tag alone "
         "and nested, plus seeded random tag trees (depth<=2/3) with raw/comment/text/output; E: every pair of names from a pool with awkward spellings as root/second segment, bare and bracketed, plus seeded random paths with indexes and nested paths; D: seeded random rich templates (filters, ternaries, "
-        "bracketed/quoted/nested paths, ranges, whitespace control, liquid tag, include/render). Every case is checked on the implementation "
-        "(str() parses; renders equal on 4 data sets; str of the re-parse is the same text); A-C and E are also evaluated in the Coq model. "
+        "bracketed/quoted/nested paths, ranges, whitespace control, liquid tag, include/render); F: seeded random expression payloads of output/echo, assign, "
+        "for/tablerow, case, when, cycle, include, render, capture/increment/decrement (filters with positional/keyword arguments, ternaries with condition trees, "
+        "ranges, nested/quoted/keyword-named paths, floats, sloppy commas, offset:continue, 12% damaged by one token) as SOURCE TOKENS: the model parses and prints "
+        "them, str() of the same source is tokenised, compared inside Coq (also: the generated tree printed by the model; parse-print-parse-print; every parsed tree "
+        "without nil is well formed). Every case is checked on the implementation "
+        "(str() parses; renders equal on 4 data sets; str of the re-parse is the same text); A-C, E and F are also evaluated in the Coq model. "
         "Non-trivial = the original source parses; distinct = distinct source."
     )
     ck.exhaustive = True
     ck.trusted_base = [
         "Coq 8.16.1 kernel + vm_compute",
-        "harness: generators, tokenisers of the serialised text (conditions, tag level), Gallina printers (props/c04.py, c12 operand table)",
-        "modelled not verified: the expression tokenizer for the generated vocabulary, the template lexer (tag-level tokens are taken as given; C10), "
-        "paths, filters, arguments and ternaries are opaque payloads of the structure model (their round trip is checked on the implementation only)",
+        "harness: generators, tokenisers of the serialised text (conditions, tag level, expressions: a re-statement of the expression lexer's rules), "
+        "float_canon (shortest positional spelling of a float), Gallina printers (props/c04.py, c12 operand table)",
+        "modelled not verified: the expression lexer (tokens are taken as given: a keyword is never a word, a string has one kind of quote; which characters "
+        "RE_PROPERTY / \\w accept beyond ASCII), the template lexer (tag-level tokens are taken as given; C10); the condition of a ternary is in the vocabulary "
+        "of the condition model (an operand is one token); that every tree the parser builds without nil is well formed is evaluated on the generated sources "
+        "(run_xwf), not proved; expression payloads are opaque to the tag-structure model (TagTree) and the two are not composed into one parser",
     ]
-    ck.assumptions = ["default delimiters; logical_not_operator, logical_parentheses and ternary_expressions enabled; the nil/null literal is the "
-                      "recorded known finding (its serialisation to '' is pinned by the existing tests)"]
+    ck.assumptions = ["default delimiters; strict mode, no shorthand indexes, no keyword assignment; logical_not_operator, logical_parentheses and "
+                      "ternary_expressions enabled; the nil/null literal is the recorded known finding (its serialisation to '' is pinned by the existing tests)"]
+    t00 = time.time()
     ck.proof()
+    if os.environ.get("VERIF_TIMING"):
+        print(f"proof: {time.time() - t00:.1f}s", flush=True)
     counter = [0]
 
     for src in CORPUS:
@@ -640,132 +1107,192 @@ def run(ck: Check) -> None:
         if r:
             report(ck, src, r, "corpus", counter)
 
-    # ---- A
-    cases, expected, meta = [], [], []
-    cond_meta, searched = [], []
-    conds = list(gen_conditions(ck))
-    srcs = ["{% if " + c12.expr_src(toks) + " %}1{% else %}2{% endif %}" for toks in conds]
-    for toks, src, (r, s) in zip(conds, srcs, batch(srcs)):
-        ck.note_case(("cond", src), nontrivial=not (r and r[0] == "orig-rejected"))
-        ck.count("A.conditions")
-        if r:
-            report(ck, src, r, "A", counter)
-            if r[0] == "orig-rejected":
+    def layer_A():
+        cases, expected, meta = [], [], []
+        cond_meta, searched = [], []
+        conds = list(gen_conditions(ck))
+        srcs = ["{% if " + c12.expr_src(toks) + " %}1{% else %}2{% endif %}" for toks in conds]
+        for toks, src, (r, s) in zip(conds, srcs, batch(srcs)):
+            ck.note_case(("cond", src), nontrivial=not (r and r[0] == "orig-rejected"))
+            ck.count("A.conditions")
+            if r:
+                report(ck, src, r, "A", counter)
+                if r[0] == "orig-rejected":
+                    continue
+            m = re.fullmatch(r"\{% if (.*?) %\}1\{% else %\}2\{% endif %\}", s, re.S)
+            vars_by_name = {t[1].name: t[1] for t in toks if isinstance(t, tuple) and t[0] == "var"}
+            ptoks = cond_tokens(m.group(1), vars_by_name) if m else None
+            if ptoks is None:
+                ck.violation("correspondence", "c04-condition-text-not-tokenisable", f"str() of {src!r} is {s!r}: not a condition over the generated vocabulary",
+                             {"type": "roundtrip", "template": src, "str": s, "broken": "correspondence CondParen.run_print2 ~ BooleanExpression.__str__"}, no_input=True)
                 continue
-        m = re.fullmatch(r"\{% if (.*?) %\}1\{% else %\}2\{% endif %\}", s, re.S)
-        vars_by_name = {t[1].name: t[1] for t in toks if isinstance(t, tuple) and t[0] == "var"}
-        ptoks = cond_tokens(m.group(1), vars_by_name) if m else None
-        if ptoks is None:
-            ck.violation("correspondence", "c04-condition-text-not-tokenisable", f"str() of {src!r} is {s!r}: not a condition over the generated vocabulary",
-                         {"type": "roundtrip", "template": src, "str": s, "broken": "correspondence CondParen.run_print2 ~ BooleanExpression.__str__"}, no_input=True)
-            continue
-        cases.append("{| pc_toks := " + g_list(c12.g_tok(t) for t in toks) + " |}")
-        expected.append("Some " + g_list(c12.g_tok(t) for t in ptoks))
-        meta.append((src, s))
-        cond_meta.append(toks)
-    ck.sample({"template": meta[len(meta) // 2][0], "str": meta[len(meta) // 2][1]})
-    mm = ck.coq_mismatches("cond", IMPORTS, "run_print2", "run_print_eqb", "pcase", "option (list tok)", cases, expected, chunk=400)
-    ck.traces += len(cases)
-    for i in mm[:3]:
-        src, s = meta[i]
-        model = ck.coq_eval(IMPORTS, [f"run_print2 ({cases[i]})"])[0]
-        vsrc, d, diff = search_condition(cond_meta[i], ck.rng)
-        if diff is None and not searched:
-            searched.append(1)
-            vsrc, d, diff = search_small_scope()
-        if diff is not None:
-            ck.violation("impl-violation", f"condition-roundtrip:{vsrc[:100]}",
-                         f"{vsrc!r} (str() = {str(env().from_string(vsrc))!r}) with data {d!r}: original and re-parsed differ: {diff!r}",
-                         {"type": "roundtrip-data", "template": vsrc, "data": d, "found_from": src, "model": model})
-            continue
-        ck.violation("correspondence", "c04-condition-correspondence", f"model CondParen.print2 and str() disagree on {src!r}: str() = {s!r}",
-                     {"type": "roundtrip", "template": src, "str": s, "model": model,
-                      "broken": "correspondence CondParen.run_print2 ~ BooleanExpression.__str__ (theorems C04_condition_roundtrip, C04_condition_idempotent)"}, no_input=True)
-
-    # ---- B
-    cases, expected, meta = [], [], []
-    vals = list(gen_strings(ck))
-    srcs = ["{{ " + ('"' if "'" in v else "'") + v + ('"' if "'" in v else "'") + " }}" for v in vals]
-    for v, src, (r, s) in zip(vals, srcs, batch(srcs)):
-        ck.note_case(("str", v), nontrivial=not (r and r[0] == "orig-rejected"))
-        ck.count("B.string-literals")
-        if r:
-            report(ck, src, r, "B", counter)
-            if r[0] == "orig-rejected":
+            cases.append("{| pc_toks := " + g_list(c12.g_tok(t) for t in toks) + " |}")
+            expected.append("Some " + g_list(c12.g_tok(t) for t in ptoks))
+            meta.append((src, s))
+            cond_meta.append(toks)
+        ck.sample({"template": meta[len(meta) // 2][0], "str": meta[len(meta) // 2][1]})
+        mm = ck.coq_mismatches("cond", IMPORTS, "run_print2", "run_print_eqb", "pcase", "option (list tok)", cases, expected, chunk=400)
+        ck.traces += len(cases)
+        for i in mm[:3]:
+            src, s = meta[i]
+            model = ck.coq_eval(IMPORTS, [f"run_print2 ({cases[i]})"])[0]
+            vsrc, d, diff = search_condition(cond_meta[i], ck.rng)
+            if diff is None and not searched:
+                searched.append(1)
+                vsrc, d, diff = search_small_scope()
+            if diff is not None:
+                ck.violation("impl-violation", f"condition-roundtrip:{vsrc[:100]}",
+                             f"{vsrc!r} (str() = {str(env().from_string(vsrc))!r}) with data {d!r}: original and re-parsed differ: {diff!r}",
+                             {"type": "roundtrip-data", "template": vsrc, "data": d, "found_from": src, "model": model})
                 continue
-        if not (s.startswith("{{ ") and s.endswith(" }}")):
-            continue
-        cases.append("{| sl_value := " + g_str(v) + " |}")
-        expected.append(g_str(s[3:-3]))
-        meta.append((src, s))
-    mm = ck.coq_mismatches("strlit", IMPORTS, "run_quote", "str_eqb", "slcase", "str", cases, expected, chunk=500)
-    ck.traces += len(cases)
-    for i in mm[:3]:
-        src, s = meta[i]
-        ck.violation("correspondence", "c04-string-literal-correspondence", f"model StrLit.quote_string and str() disagree on {src!r}: str() = {s!r}",
-                     {"type": "roundtrip", "template": src, "str": s, "broken": "correspondence StrLit.run_quote ~ StringLiteral.__str__ (theorem C04_string_literal_roundtrip)"}, no_input=True)
+            ck.violation("correspondence", "c04-condition-correspondence", f"model CondParen.print2 and str() disagree on {src!r}: str() = {s!r}",
+                         {"type": "roundtrip", "template": src, "str": s, "model": model,
+                          "broken": "correspondence CondParen.run_print2 ~ BooleanExpression.__str__ (theorems C04_condition_roundtrip, C04_condition_idempotent)"}, no_input=True)
 
-    # ---- E
-    cases, expected, meta = [], [], []
-    paths = list(gen_paths(ck))
-    srcs = ["{{ " + path_source(p, ck.rng) + " }}" for p in paths]
-    for pth, src, (r, s) in zip(paths, srcs, batch(srcs)):
-        ck.note_case(("path", src), nontrivial=not (r and r[0] == "orig-rejected"))
-        ck.count("E.paths")
-        if r:
-            report(ck, src, r, "E", counter)
-            if r[0] == "orig-rejected":
+
+    def layer_B():
+        cases, expected, meta = [], [], []
+        vals = list(gen_strings(ck))
+        srcs = ["{{ " + ('"' if "'" in v else "'") + v + ('"' if "'" in v else "'") + " }}" for v in vals]
+        for v, src, (r, s) in zip(vals, srcs, batch(srcs)):
+            ck.note_case(("str", v), nontrivial=not (r and r[0] == "orig-rejected"))
+            ck.count("B.string-literals")
+            if r:
+                report(ck, src, r, "B", counter)
+                if r[0] == "orig-rejected":
+                    continue
+            if not (s.startswith("{{ ") and s.endswith(" }}")):
                 continue
-        ptoks = path_tokens(s[3:-3]) if s.startswith("{{ ") and s.endswith(" }}") else None
-        if ptoks is None:
-            continue
-        cases.append("{| pth := " + g_path(pth) + " |}")
-        expected.append(g_list(ptoks))
-        meta.append((src, s))
-    mm = ck.coq_mismatches("path", IMPORTS, "run_path", "list_eqb ptok_eqb", "pathcase", "list ptok", cases, expected, chunk=500)
-    ck.traces += len(cases)
-    for i in mm[:3]:
-        src, s = meta[i]
-        model = ck.coq_eval(IMPORTS, [f"run_path ({cases[i]})"])[0]
-        ck.violation("correspondence", "c04-path-correspondence", f"model PathSyntax.print_path and str() disagree on {src!r}: str() = {s!r}",
-                     {"type": "roundtrip", "template": src, "str": s, "model": model[:1500],
-                      "broken": "correspondence PathSyntax.run_path ~ Path.__str__ (theorem C04_path_roundtrip)"}, no_input=True)
+            cases.append("{| sl_value := " + g_str(v) + " |}")
+            expected.append(g_str(s[3:-3]))
+            meta.append((src, s))
+        mm = ck.coq_mismatches("strlit", IMPORTS, "run_quote", "str_eqb", "slcase", "str", cases, expected, chunk=500)
+        ck.traces += len(cases)
+        for i in mm[:3]:
+            src, s = meta[i]
+            ck.violation("correspondence", "c04-string-literal-correspondence", f"model StrLit.quote_string and str() disagree on {src!r}: str() = {s!r}",
+                         {"type": "roundtrip", "template": src, "str": s, "broken": "correspondence StrLit.run_quote ~ StringLiteral.__str__ (theorem C04_string_literal_roundtrip)"}, no_input=True)
 
-    # ---- C
-    cases, expected, meta = [], [], []
-    trees = list(gen_trees(ck))
-    srcs = [tree_source(t) for t in trees]
-    for tree, src, (r, s) in zip(trees, srcs, batch(srcs)):
-        ck.note_case(("tree", src), nontrivial=not (r and r[0] == "orig-rejected"))
-        ck.count("C.tag-trees")
-        if r:
-            report(ck, src, r, "C", counter)
-            if r[0] == "orig-rejected":
+
+    def layer_E():
+        cases, expected, meta = [], [], []
+        paths = list(gen_paths(ck))
+        srcs = ["{{ " + path_source(p, ck.rng) + " }}" for p in paths]
+        for pth, src, (r, s) in zip(paths, srcs, batch(srcs)):
+            ck.note_case(("path", src), nontrivial=not (r and r[0] == "orig-rejected"))
+            ck.count("E.paths")
+            if r:
+                report(ck, src, r, "E", counter)
+                if r[0] == "orig-rejected":
+                    continue
+            ptoks = path_tokens(s[3:-3]) if s.startswith("{{ ") and s.endswith(" }}") else None
+            if ptoks is None:
                 continue
-        cases.append("{| tc_nodes := " + g_nodes(tree) + " |}")
-        expected.append(g_ttoks(tpl_tokens(s)))
-        meta.append((src, s))
-    ck.sample({"template": meta[-1][0], "str": meta[-1][1]})
-    mm = ck.coq_mismatches("tree", IMPORTS, "run_tprint", "tprint_eqb", "tcase", "list ttok", cases, expected, chunk=200)
-    ck.traces += len(cases)
-    for i in mm[:3]:
-        src, s = meta[i]
-        model = ck.coq_eval(IMPORTS, [f"run_tprint ({cases[i]})"])[0]
-        ck.violation("correspondence", "c04-structure-correspondence", f"model TagTree.print_nodes and str() disagree on {src!r}: str() = {s!r}",
-                     {"type": "roundtrip", "template": src, "str": s, "model": model[:2000],
-                      "broken": "correspondence TagTree.run_tprint ~ Node.__str__ of the block/inline tags (theorem C04_structure_roundtrip)"}, no_input=True)
+            cases.append("{| pth := " + g_path(pth) + " |}")
+            expected.append(g_list(ptoks))
+            meta.append((src, s))
+        mm = ck.coq_mismatches("path", IMPORTS, "run_path", "list_eqb ptok_eqb", "pathcase", "list ptok", cases, expected, chunk=500)
+        ck.traces += len(cases)
+        for i in mm[:3]:
+            src, s = meta[i]
+            model = ck.coq_eval(IMPORTS, [f"run_path ({cases[i]})"])[0]
+            ck.violation("correspondence", "c04-path-correspondence", f"model PathSyntax.print_path and str() disagree on {src!r}: str() = {s!r}",
+                         {"type": "roundtrip", "template": src, "str": s, "model": model[:1500],
+                          "broken": "correspondence PathSyntax.run_path ~ Path.__str__ (theorem C04_path_roundtrip)"}, no_input=True)
 
-    # ---- D
-    parsed = 0
-    srcs = list(gen_rich(ck))
-    for src, (r, _s) in zip(srcs, batch(srcs)):
-        ok = not (r and r[0] == "orig-rejected")
-        parsed += ok
-        ck.note_case(("rich", src), nontrivial=ok)
-        ck.count("D.rich-templates" + ("" if ok else ".rejected"))
-        if r:
-            report(ck, src, r, "D", counter)
-    ck.extra["rich_templates_parsed"] = parsed
+
+    def layer_C():
+        cases, expected, meta = [], [], []
+        trees = list(gen_trees(ck))
+        srcs = [tree_source(t) for t in trees]
+        for tree, src, (r, s) in zip(trees, srcs, batch(srcs)):
+            ck.note_case(("tree", src), nontrivial=not (r and r[0] == "orig-rejected"))
+            ck.count("C.tag-trees")
+            if r:
+                report(ck, src, r, "C", counter)
+                if r[0] == "orig-rejected":
+                    continue
+            cases.append("{| tc_nodes := " + g_nodes(tree) + " |}")
+            expected.append(g_ttoks(tpl_tokens(s)))
+            meta.append((src, s))
+        ck.sample({"template": meta[-1][0], "str": meta[-1][1]})
+        mm = ck.coq_mismatches("tree", IMPORTS, "run_tprint", "tprint_eqb", "tcase", "list ttok", cases, expected, chunk=200)
+        ck.traces += len(cases)
+        for i in mm[:3]:
+            src, s = meta[i]
+            model = ck.coq_eval(IMPORTS, [f"run_tprint ({cases[i]})"])[0]
+            ck.violation("correspondence", "c04-structure-correspondence", f"model TagTree.print_nodes and str() disagree on {src!r}: str() = {s!r}",
+                         {"type": "roundtrip", "template": src, "str": s, "model": model[:2000],
+                          "broken": "correspondence TagTree.run_tprint ~ Node.__str__ of the block/inline tags (theorem C04_structure_roundtrip)"}, no_input=True)
+
+
+    def layer_F():
+        fcases = list(gen_expr_cases(ck))
+        srcs = [WRAPS[w][0] % etoks_text(toks, ck.rng) for _k, _t, toks, w in fcases]
+        xcases, xexp, xmeta = [], [], []
+        ycases, yexp, ymeta = [], [], []
+        for (kind, tree, toks, w), src, (r, s) in zip(fcases, srcs, batch(srcs)):
+            rejected = bool(r and r[0] == "orig-rejected")
+            ck.note_case(("expr", src), nontrivial=not rejected)
+            ck.count("F.expressions." + kind + (".rejected" if rejected else ""))
+            case = "{| xc_kind := " + KIND[kind] + "; xc_toks := " + g_list(g_etok(t) for t in toks) + " |}"
+            if rejected:
+                xcases.append(case)
+                xexp.append("(None, true)")
+                xmeta.append((src, None))
+                continue
+            if r:
+                report(ck, src, r, "F", counter)
+            m = re.fullmatch(WRAPS[w][1], s, re.S)
+            vars_by_name = {t[1][1].name: t[1][1] for t in toks if t[0] == "cond" and isinstance(t[1], tuple) and t[1][0] == "var"}
+            otoks = expr_tokens(m.group(1), vars_by_name) if m else None
+            if otoks is None:
+                ck.violation("correspondence", "c04-expression-text-not-tokenisable", f"str() of {src!r} is {s!r}: not an expression over the generated vocabulary",
+                             {"type": "roundtrip", "template": src, "str": s, "broken": "correspondence ExprSyntax.run_xprint ~ __str__ of the expression classes"}, no_input=True)
+                continue
+            xcases.append(case)
+            # the second round is compared where the implementation round-trips (not where the recorded nil finding breaks it)
+            xexp.append("(Some " + g_list(otoks) + ", " + ("true" if r is None else "false") + ")")
+            xmeta.append((src, s))
+            if tree is not None:
+                ycases.append("{| yc_payload := " + g_payload(tree) + " |}")
+                yexp.append(g_list(otoks))
+                ymeta.append((src, s))
+        ck.sample({"template": xmeta[len(xmeta) // 3][0], "str": xmeta[len(xmeta) // 3][1]})
+        for name, fn, eqb, ctype, otype, cs, ex, meta_, what in (
+                ("xall", "run_xall", "xall_eqb", "xcase", "option (list etok) * bool", xcases, xexp, xmeta,
+                 "parser + serialiser on the source tokens; second round; well-formedness of the parsed tree"),
+                ("yprint", "run_yprint", "list_eqb etok_eqb", "ycase", "list etok", ycases, yexp, ymeta, "serialiser on the generated tree")):
+            mm = ck.coq_mismatches(name, "PyPrims Cond CondPrint PathSyntax ExprSyntax", fn, eqb, ctype, otype, cs, ex, chunk=200)
+            ck.traces += len(cs)
+            for i in mm[:3]:
+                src, s = meta_[i]
+                model = ck.coq_eval(IMPORTS, [f"{fn} ({cs[i]})"])[0]
+                ck.violation("correspondence", f"c04-expression-{name}-correspondence", f"model ExprSyntax.{fn} ({what}) and the implementation disagree on {src!r}: str() = {s!r}",
+                             {"type": "roundtrip", "template": src, "str": s, "model": model[:2000], "model_case": cs[i][:4000], "expected": ex[i][:4000],
+                              "broken": f"correspondence ExprSyntax.{fn} ~ parse/__str__ of the expression classes (theorems C04_expression_roundtrip, C04_expression_idempotent)"}, no_input=True)
+
+    def layer_D():
+        parsed = 0
+        srcs = list(gen_rich(ck))
+        for src, (r, _s) in zip(srcs, batch(srcs)):
+            ok = not (r and r[0] == "orig-rejected")
+            parsed += ok
+            ck.note_case(("rich", src), nontrivial=ok)
+            ck.count("D.rich-templates" + ("" if ok else ".rejected"))
+            if r:
+                report(ck, src, r, "D", counter)
+        ck.extra["rich_templates_parsed"] = parsed
+
+
+    only = os.environ.get("VERIF_C04_LAYERS", "")       # development aid: run a subset of the layers
+
+    for name, fn in (("A", layer_A), ("B", layer_B), ("E", layer_E), ("C", layer_C), ("F", layer_F), ("D", layer_D)):
+        if not only or name in only:
+            t0 = time.time()
+            fn()
+            if os.environ.get("VERIF_TIMING"):
+                print(f"layer {name}: {time.time() - t0:.1f}s", flush=True)
 
 
 def replay(data) -> int:
